@@ -368,7 +368,15 @@ func checkCatalog(n *Node, fs *simos.FS, res *Result, seed uint64, when string, 
 	viol := func(class, sig, detail string) bool {
 		if strings.HasPrefix(when, "quiescent") {
 			// concurrent mode: one signature per kind of disagreement
-			sig = "conc|catalog-mismatch|" + class
+			// ... plus whether the concurrent history destroyed a bucket (the known
+			// Destroy races are the only way the unchanged server gets here)
+			hist := "no-destroy"
+			for _, o := range ops {
+				if strings.Contains(o, "destroy") {
+					hist = "with-destroy"
+				}
+			}
+			sig = "conc|catalog-mismatch|" + class + "|" + hist
 		} else {
 			sig = "seq|" + sig
 		}
